@@ -44,12 +44,22 @@ def mk_conv(it, version="NP2.4", compressed_input=False, nshank=(0, 1), stem="x.
     napch = z3.Int("napch")
     it.ctx.assume(napch >= 1)
     meta = {"typeThis": "imec", "snsApLfSy": [SV(z3.ToReal(napch)), 0.0, 1.0], "nSavedChans": SV(z3.ToReal(napch + 1)), "imSampRate": 30000.0}
-    sr = SObj(spikeglx.Reader, file_bin=ap, meta=meta, dtype=np.dtype("int16"), _raw=None, file_meta_data=ap.with_suffix(".meta"))
-    conv = SObj(neuropixel.NP2Converter, ap_file=ap, sr=sr, np_version=version, extra="", nshank=list(nshank) if nshank else None,
+    ns_rec = z3.Int("samples_in_the_recording")
+    it.ctx.assume(ns_rec >= 1)
+    sr = SObj(spikeglx.Reader, file_bin=ap, meta=meta, dtype=np.dtype("int16"), _raw=None, file_meta_data=ap.with_suffix(".meta"), ns=SV(ns_rec))
+    conv = SObj(neuropixel.NP2Converter, ap_file=ap, sr=sr, np_version=version, extra="", nshank=list(nshank) if nshank else None, ratio=12, fs_ap=30000, fs_lf=2500,
                 post_check=SV(z3.Bool("post_check")), compress=SV(z3.Bool("compress")), delete_original=SV(z3.Bool("delete_original")),
                 check_completed=False, already_processed=False, napch=SV(napch), idxsyncch=SV(napch))
     it.session.contracts[__import__("pathlib").Path] = lambda it_, a, k: a[0]
     return fs_, conv, ap, napch
+
+
+def is_empty(fs_, path):
+    """the file under this name holds nothing (size 0 after the last operation on it)"""
+    sz = fs_.size.get(path.key)
+    if isinstance(sz, SV):
+        return term(sz) == 0
+    return z3.BoolVal(isinstance(sz, int) and sz == 0)
 
 
 def touched(fs_, key):
@@ -111,6 +121,8 @@ def _prepare24(H, flags, ids=(0, 1)):
                 it.ctx.oblige(f"overwrite.outputs_start_empty.{tag}", z3.BoolVal(sorted(info) == [f"shank{i_}" for i_ in ids] and all({"ap_file", "lf_file", "chns"} <= set(v) for v in info.values())
                               and all(v[kk].key in truncated for v in info.values() for kk in ("ap_file", "lf_file"))), "post",
                               "a forced (or first) run starts every shank's ap and lf file empty: whatever an earlier run left under these names is truncated before samples are written")
+                it.ctx.oblige(f"overwrite.outputs_hold_nothing_yet.{tag}", z3.And(*[is_empty(fs_, v[kk]) for v in info.values() for kk in ("ap_file", "lf_file") if kk in v]), "post",
+                              "the files hold exactly what the windows append: nothing is in them (no reserved or left-over bytes) when the extraction starts")
             it.ctx.oblige(f"outputs_never_alias_input.{tag}", z3.BoolVal(all(op[1] != ap.key and not op[1].startswith(ap.parent.key + "/") for op in created)), "post",
                           "every created path lies in a shank folder different from the input's folder")
             for sh, v in info.items():
@@ -564,6 +576,8 @@ def h_prepare21(H):
                 it.ctx.oblige("np21.rerun.noop", z3.Implies(ae_t, z3.BoolVal(not created)), "post", "a repeated run without overwrite changes nothing on disk")
             truncated = {op[1] for op in fs_.log if op[0] == "open_w"}
             started = z3.BoolVal(isinstance(info, dict) and len(info) >= 1 and all("lf_file" in v and v["lf_file"].key in truncated for v in info.values()))
+            it.ctx.oblige(f"np21.output_holds_nothing_yet.{tag}", z3.Implies(z3.Not(ae_t), z3.And(*[is_empty(fs_, v["lf_file"]) for v in info.values() if "lf_file" in v])) if isinstance(info, dict) else z3.BoolVal(False), "post",
+                          "the LF file holds exactly what the windows append: nothing is in it (no reserved or left-over bytes) when the extraction starts", assume=False)
             it.ctx.oblige(f"np21.output_starts_empty.{tag}", z3.Implies(z3.Not(ae_t), started), "post",
                           "whenever the extraction runs (first or forced), the LF file is created / truncated before samples are appended: an lf.bin left by an earlier run never ends up in front of the new stream")
             it.ctx.oblige(f"np21.outputs_never_alias_input.{tag}", z3.BoolVal(all(op[1] != ap.key for op in created)), "post")
